@@ -59,7 +59,7 @@ Proof.
   apply Forall_cons_iff in Hb. destruct Hb as [H0 Ht].
   rewrite len_lt_false by (cbn [length]; lia). rewrite idx0. cbn [bind calc_position_hevc].
   rewrite hevc_type_is_mod by assumption.
-  change (hevc_single_type ((b0 mod 128) / 2)) with (hevc_type_known ((b0 mod 128) / 2)).
+  change (hevc_single_type true ((b0 mod 128) / 2)) with (hevc_type_known ((b0 mod 128) / 2)).
   destruct (hevc_type_known ((b0 mod 128) / 2)); [reflexivity|].
   destruct ((b0 mod 128) / 2 =? 49).
   - destruct t as [|b1 [|b2 t']]; try reflexivity.
